@@ -54,6 +54,21 @@ def run_scenarios(scs, profile="release", traced=False):
         os.unlink(path)
 
 
+def run_batch(sub, items, profile="release", timeout=300):
+    """items -> JSON file -> `<replayer> <sub> <file>` -> parsed JSON list"""
+    b = binary(profile)
+    with tempfile.NamedTemporaryFile("w", suffix=".json", delete=False, dir=BUILD) as f:
+        json.dump(items, f)
+        path = f.name
+    try:
+        p = subprocess.run([b, sub, path], stdout=subprocess.PIPE, stderr=subprocess.PIPE, text=True, timeout=timeout)
+        if p.returncode != 0:
+            raise Inconclusive("replayer %s failed: %s" % (sub, p.stderr[-800:]))
+        return json.loads(p.stdout)
+    finally:
+        os.unlink(path)
+
+
 def call_fn(name, *args, profile="release"):
     b = binary(profile)
     p = subprocess.run([b, "fn", name] + [str(a) for a in args], stdout=subprocess.PIPE, stderr=subprocess.PIPE, text=True,
